@@ -58,6 +58,7 @@ def zero(name, e, text, replay=None):
         cex, v = numeric_nonzero(e)
         if cex is not None:
             o = core.Obl(name, 'refuted', 'exact-evaluation(bessel)', o.get('time_s', 0.0), goal=text, cex=cex, detail='value %.6g at the point (real Bessel functions, 30 digits)' % v, replay=replay)
+    if o['status'] == 'refuted' and replay and not o.get('replay'): o['replay'] = replay
     o.pop('cex_raw', None); return o
 
 
@@ -80,16 +81,27 @@ print(json.dumps({'reproduced': bool(worst > 1e-3), 'relative residual of T_t = 
 """
 
 
+BC_NATIVE = r"""
+import json, io, contextlib, warnings
+import numpy as np
+warnings.simplefilter('ignore')
+from exactpack.solvers.heat import CylindricalSandwich
+with contextlib.redirect_stdout(io.StringIO()): s = CylindricalSandwich(Nsum=2, Msum=2, T0=0.4, T1=1.3)
+with contextlib.redirect_stdout(io.StringIO()): v = [float(s([np.array([r0]), np.array([np.pi / 2])], 0.3)['temperature'][0]) for r0 in (0.3, 0.6)]
+print(json.dumps({'reproduced': bool(max(abs(q - 1.3) for q in v) > 1e-6), 'T(r, theta=pi/2, t=0.3) with T0=0.4, T1=1.3 (documented boundary value T1)': v}))
+"""
+
+
 INIT_NATIVE = r"""
 import json, io, contextlib, warnings
 import numpy as np
 warnings.simplefilter('ignore')
 from exactpack.solvers.heat import CylindricalSandwich
-with contextlib.redirect_stdout(io.StringIO()): s = CylindricalSandwich(Nsum=20, Msum=30)
+with contextlib.redirect_stdout(io.StringIO()): s = CylindricalSandwich(Nsum=20, Msum=30, T0=0.4, T1=1.0)
 vals = {}
 for (r0, th0) in ((0.5, 0.7), (0.4, 0.3), (0.7, 1.2), (0.6, 1.0)):
     with contextlib.redirect_stdout(io.StringIO()): vals['r=%s theta=%s' % (r0, th0)] = float(s([np.array([r0]), np.array([th0])], 0.0)['temperature'][0])
-print(json.dumps({'reproduced': bool(max(abs(v) for v in vals.values()) > 0.1), 'T(r, theta, t=0) with T0=0, T1=1 (documented initial condition: 0; truncation error at Nsum=20 is below 0.05)': vals}))
+print(json.dumps({'reproduced': bool(max(abs(v) for v in vals.values()) > 0.1), 'T(r, theta, t=0) with T0=0.4, T1=1 (documented initial condition: 0; truncation error at Nsum=20 is below 0.08)': vals}))
 """
 
 
@@ -123,7 +135,7 @@ def unit():
     O.append(zero('C14/cylsandwich/term:bc_theta=pi/2', tmp.subs(th, sp.pi / 2), 'each term vanishes at theta = pi/2 (k = 2(n+1) is even)'))
     O.append(zero('C14/cylsandwich/static:laplace', lap(stat_v), 'the static part is harmonic'))
     O.append(zero('C14/cylsandwich/static:bc_theta=0', stat_v.subs(th, 0) - T0, 'static part equals T0 at theta = 0'))
-    O.append(zero('C14/cylsandwich/static:bc_theta=pi/2', stat_v.subs(th, sp.pi / 2) - (T0 + T1), 'static part equals T0 + T1 at theta = pi/2'))
+    O.append(zero('C14/cylsandwich/static:bc_theta=pi/2', stat_v.subs(th, sp.pi / 2) - T1, 'static part equals T1 at theta = pi/2 (documented boundary condition T(r, pi/2, t) = T1)', BC_NATIVE))
     O.append(zero('C14/cylsandwich/static:insulated_radially', sp.diff(stat_v, r), 'static part has no radial flux'))
     # radial eigenfunction: beta as defined in alpha() makes R'(a) = 0; R'(b) = 0 is the root equation bc_solve(alpha) = 0
     fa = R.func_ref(SRC + '::CylindricalSandwich.alpha')
@@ -147,6 +159,7 @@ def unit():
     if Tnm is not None and Rnm is not None:
         Ra, Rb = Rnm.subs(r, a), Rnm.subs(r, b)
         norm = ((b ** 2 - k ** 2 / al ** 2) * Rb ** 2 - (a ** 2 - k ** 2 / al ** 2) * Ra ** 2) / 2
-        want = (4 * T1 / sp.pi) * ((-1) ** j / k) * Q / norm
-        O.append(zero('C14/cylsandwich/coefficient:projection', (Tnm - want) * norm * sp.sympify(Anm), 'T_nm == (4 T1/pi) ((-1)^(k/2)/k) int_a^b r R dr / int_a^b r R^2 dr with int r R^2 dr = [(r^2 - k^2/alpha^2) R^2/2]_a^b', INIT_NATIVE))
+        # projection of -(static part) = -(T0 + 2 (T1 - T0) theta/pi) on sin(k theta), k = 2 j:  (4/(pi k)) (T1 (-1)^j - T0)
+        want = (4 / (sp.pi * k)) * (T1 * (-1) ** j - T0) * Q / norm
+        O.append(zero('C14/cylsandwich/coefficient:projection', (Tnm - want) * norm * sp.sympify(Anm), 'T_nm == (4/(pi k)) (T1 (-1)^(k/2) - T0) int_a^b r R dr / int_a^b r R^2 dr: the projection of the documented initial condition T = 0 minus the static part', INIT_NATIVE))
     return res
